@@ -924,6 +924,19 @@ def rule_dispatch(ctx) -> None:
     chk.decide("if version is None:" in t and "version = ProtocolVersion.from_public_key(public_key=rot_pub)" in t, "C15.dispatch", cf.qual + " version", "protocol version defaults to the one implied by the RoT key", "", "", A.loc(DC, cf.node))
 
 
+def rule_rot_meta_roundtrip(ctx) -> None:
+    """C15.rotmeta-roundtrip: the RoT meta records of a debug credential interpreted on model objects (E19): parse(export(x)) has the
+    fields of x and exports to the same bytes (RSA table of hashes, the flags word)."""
+    from ..engines import roundtrip
+
+    def h(n: int) -> bytes:
+        return bytes(range(n, n + 32))
+    roundtrip.check_classes(ctx, "C15.rotmeta-roundtrip", DC, [
+        ("RotMetaRSA", [{"rot_items": (h(1), h(2), h(3), h(4))}, {"rot_items": (h(1),)}]),
+        ("RotMetaFlags", [{"used_root_cert": 2, "cnt_root_cert": 3}, {"used_root_cert": 0, "cnt_root_cert": 1}]),
+    ], floor=2)
+
+
 def run(ctx) -> None:
     ctx.chk.explain("C15: field-sequence model of the debug credential writers/readers/format builders (signed prefix, coverage of the required fields, "
                     "format/argument agreement, parse order and offsets, constructor routing), size-table agreement with the key types, RoT hash construction "
@@ -938,6 +951,7 @@ def run(ctx) -> None:
     ctx.rule(rule_response)
     ctx.rule(rule_dac)
     ctx.rule(rule_dispatch)
+    ctx.rule(rule_rot_meta_roundtrip)
     ctx.chk.assumptions = ["the signature primitives sign/verify correctly (C08 decides the provider plumbing)",
                            "RSA RoT keys use the public exponent 65537 (RotMetaRSA hashes a fixed 3-byte exponent, RKHT the minimal encoding)",
                            "AHAB certificate / SRK table / signed message internals of the EdgeLock-enclave variants are decided under C06",
